@@ -590,6 +590,7 @@ def check(ctx):
     # a label slice combined with scalar / list indices on other dimensions goes through orthogonal_indexer (shared with C01)
     from . import c01
     c01.rule_orthogonal_indexer(ctx, rid='R8')
+    c01.rule_issorted_provenance(ctx, rid='R9')
     ctx.not_decided += ['is_monotonic_equal on arrays with repeated values (value level)', 'float rounding',
                         "NumPy's searchsorted semantics (trusted: first i with a[i] >= v is side='left', "
                         "first i with a[i] > v is side='right')"]
